@@ -205,14 +205,12 @@ Proof.
   reflexivity.
 Qed.
 
-Lemma lex_one_space c x : (c =? 32) || (c =? 9) || (c =? 10) || (c =? 13) = false ->
+Lemma lex_one_space c x : existsb (N.eqb c) [32; 9; 10; 13] = false ->
   lex_one (32 :: c :: x) = Some (WS, true, [32], c :: x).
 Proof.
   intros Hc. unfold lex_one. rewrite best_rule_filter.
   change (filter (fun r => first_ok (snd r) 32) lexer_rules) with [(WS, SWs [32; 9; 10; 13]); (ERROR, SAny)].
-  cbn [best_rule match_shape]. unfold m_ws. cbn [span_len existsb]. change (32 =? 32) with true. cbn [orb].
-  rewrite orb_false_r, !orb_assoc. rewrite !(N.eqb_sym c). rewrite !(N.eqb_sym c) in Hc.
-  cbn [orb]. rewrite !orb_assoc in *. rewrite Hc. reflexivity.
+  cbn [best_rule match_shape]. unfold m_ws. cbn [span_len]. rewrite Hc. reflexivity.
 Qed.
 
 (* literal & literal *)
